@@ -110,6 +110,13 @@ func (c *conn) take() []byte {
 	return b
 }
 
+// untaken: bytes were written that the harness has not consumed yet
+func (c *conn) untaken() bool {
+	c.mu.Lock()
+	defer c.mu.Unlock()
+	return c.taken < len(c.out)
+}
+
 func (c *conn) written() []byte {
 	c.mu.Lock()
 	defer c.mu.Unlock()
